@@ -113,7 +113,7 @@ class SgzLoader3d(SgzLoader):
         for sub_block_num in range(self.blockshape[0] // 4):
             buf_start = block_i * self.block_bytes * (
                 blocks_per_dim[1]) + block_x * sub_block_size_bytes + sub_block_num * (
-                                (self.shape_pad[1] * 4 * 4 * self.rate) // 8)
+                                int(self.shape_pad[1] * 4 * 4 * self.rate) // 8)
             buffer[buf_start:buf_start + sub_block_size_bytes] = \
                 temp_buf[sub_block_num * sub_block_size_bytes:(sub_block_num + 1) * sub_block_size_bytes]
 
@@ -162,7 +162,7 @@ class SgzLoader3d(SgzLoader):
 
     @lru_cache(maxsize=1)
     def read_and_decompress_zslice_set_adv(self, blocks_per_dim, zslice_first_block_offset):
-        sub_block_size_bytes = ((4 * 4 * self.blockshape[1]) * self.rate) // 8
+        sub_block_size_bytes = int((4 * 4 * self.blockshape[1]) * self.rate) // 8
         buffer = bytearray(self.block_bytes * blocks_per_dim[0] * blocks_per_dim[1])
         futures = []
         with cf.ThreadPoolExecutor(max_workers=self.n_workers) as executor:
